@@ -97,6 +97,8 @@ class C08(Prop):
             r = rng.random()
             if r < 0.12:
                 c = self._entry_bypass(rng)
+            elif r < 0.16:
+                c = self._cycle_seed_default(rng)
             elif r < 0.2:
                 c = self._inner_binding_renamed(rng)
             elif r < 0.26:
@@ -157,6 +159,29 @@ class C08(Prop):
         rng.shuffle(nodes)
         values = [["prompt", 1], ["step", 1], ["msgs", {"l": []}], ["total", 0]]
         return {"program": [{"name": "g0", "nodes": nodes, "bound": []}], "values": values, "fixed_ops": True}
+
+    @staticmethod
+    def _cycle_seed_default(rng: random.Random) -> dict:
+        """load(raw)->scale ; accumulate(step, scale, carry=0)->total ; advance(total)->carry ; gate(total) -> advance | END.  The cycle
+        is seeded through `advance` only (accumulate's own cycle input has a default); entering the cycle below `load` makes `scale`
+        required next to `step`: supplying the entry point's `total` boot-straps the cycle, it does not by-pass `accumulate`."""
+        limit = rng.randint(3, 9)
+        nodes = [
+            {"name": "load", "kind": "fn", "params": [["raw", None]], "dataOuts": ["scale"], "body": {"b": "sum", "k": 0}},
+            {"name": "accumulate", "kind": "fn", "params": [["step", None], ["scale", None], ["carry", {"d": 0}]], "dataOuts": ["total"], "body": {"b": "sum", "k": 0}},
+            {"name": "advance", "kind": "fn", "params": [["total", None]], "dataOuts": ["carry"], "body": {"b": "sum", "k": 0}},
+            {"name": "more", "kind": "route", "params": [["total", None]], "targets": ["advance", "__END__"], "multiTarget": False, "fallback": None,
+             "defaultOpen": True, "body": {"b": "table", "rows": [[v, "advance"] for v in range(0, limit)], "dflt": "__END__"}},
+        ]
+        if rng.random() < 0.5:
+            rng.shuffle(nodes)
+        g: dict[str, Any] = {"name": "g0", "nodes": nodes, "bound": []}
+        ep = rng.choice([["advance"], ["advance"], ["accumulate"], None])
+        if ep:
+            g["entrypoints"] = ep
+        if rng.random() < 0.3:
+            g["selected"] = [rng.choice(["carry", "total"])]
+        return {"program": [g], "values": [["raw", 1], ["step", 1], ["scale", 1], ["total", 1], ["carry", 1]], "fixed_ops": True}
 
     @staticmethod
     def _inner_binding_renamed(rng: random.Random) -> dict:
@@ -275,6 +300,10 @@ class C08(Prop):
                     else:
                         r = asyncio.run(AsyncRunner().run(g, vals, error_handling="continue", max_iterations=60, **kwargs))
                     outcome = "ran"
+                    err = impl.canon_error(r.error, env) if r.error is not None else None
+                    if err is not None and not str(err).startswith("user") and err != "InfiniteLoopError":
+                        # accepted, but the run then died for want of a value (not a node's own error)
+                        outcome = "ran:" + str(err)
                 except Exception as e:
                     outcome = classify(e)
             trials.append({"omit": t["omit"], "values": t["values"], "entrypoint": kwargs.get("entrypoint"), "outcome": outcome,
@@ -330,7 +359,9 @@ class C08(Prop):
             if law[1:] != [True, True, True]:
                 return f"bind/unbind law fails for {law[0]!r}: (not required after bind, optional after bind, restored by unbind) = {law[1:]}"
         def bypass(omitted: str, supplied: set[str]) -> str | None:
-            """A supplied name that is the output of a node consuming the omitted input: supplying it by-passes that node."""
+            """A supplied REQUIRED name that is the output of a node consuming the omitted input: supplying it by-passes that node.
+            (Parameters of a listed cycle entry point are not by-passes: they boot-strap the cycle.)"""
+            supplied = supplied & set(obs["effspec"]["required"])
             for n in case["program"][-1]["nodes"]:
                 ren = dict(n.get("inRen", []))
                 ins = {ren.get(q[0], q[0]) for q in n.get("params", [])}
@@ -353,6 +384,8 @@ class C08(Prop):
             if t["omit"] is None:
                 if t["outcome"] == "MissingInputError":
                     return f"all required inputs (and one listed entry point) supplied, yet rejected with MissingInputError; values={t['values']}"
+                if t["outcome"].startswith("ran:"):
+                    return f"all required inputs (and one listed entry point) supplied and accepted, yet the run then failed with {t['outcome'][4:]}: something else was needed; values={t['values']}"
             else:
                 if t["outcome"] != "MissingInputError":
                     note = bypass(t["omit"], {k for k, _ in t["values"]}) if case["program"][-1].get("entrypoints") else None
